@@ -25,10 +25,32 @@ class TranslateError(Exception):
     pass
 
 
+NOTES = []      # how the data was obtained this time (goes into the evidence)
+
+
 def _is_func_none_test(t):
     return (isinstance(t, ast.Compare) and isinstance(t.left, ast.Name) and t.left.id == 'func'
             and len(t.ops) == 1 and isinstance(t.ops[0], ast.Is)
             and isinstance(t.comparators[0], ast.Constant) and t.comparators[0].value is None)
+
+
+def _const(tree, node):
+    """A literal number, or a module-level name bound once to one."""
+    if isinstance(node, ast.Constant) and isinstance(node.value, (int, float)):
+        return node.value
+    if isinstance(node, ast.Name):
+        vals = [st.value.value for st in tree.body if isinstance(st, ast.Assign) and len(st.targets) == 1
+                and isinstance(st.targets[0], ast.Name) and st.targets[0].id == node.id
+                and isinstance(st.value, ast.Constant) and isinstance(st.value.value, (int, float))]
+        if len(vals) == 1:
+            return vals[0]
+    return None
+
+
+def _is_partial(f):
+    return ((isinstance(f, ast.Name) and f.id == 'partial')
+            or (isinstance(f, ast.Attribute) and f.attr == 'partial' and isinstance(f.value, ast.Name)
+                and f.value.id == 'functools'))
 
 
 def _kw_pairs(call):
@@ -66,7 +88,7 @@ def extract(source):
             raise TranslateError(f'{name}: no `if func is None` branch')
         partial_pairs = None
         for sub in ast.walk(none_branch):
-            if isinstance(sub, ast.Call) and isinstance(sub.func, ast.Name) and sub.func.id == 'partial':
+            if isinstance(sub, ast.Call) and _is_partial(sub.func):
                 if not (sub.args and isinstance(sub.args[0], ast.Name) and sub.args[0].id == name):
                     raise TranslateError(f'{name}: partial() of something else')
                 if len(sub.args) != 1:
@@ -88,9 +110,100 @@ def extract(source):
     consts = {}
     for node in ast.walk(tree):
         if isinstance(node, ast.Call) and isinstance(node.func, ast.Attribute) and node.func.attr == 'wait_for':
-            if len(node.args) == 2 and isinstance(node.args[1], ast.Constant):
-                consts['cache_safety_timeout'] = node.args[1].value
+            if len(node.args) == 2:
+                v = _const(tree, node.args[1])
+                if v is not None:
+                    consts['cache_safety_timeout'] = v
     return res, consts
+
+
+def extract_dynamic(source):
+    """The same data read off the *loaded* code instead of its text, for sources whose shape the ast reader does not
+    know (the options re-bound through a helper, the constructor called from a helper object, ...): every option is
+    given a distinct sentinel value; `partial` = the keywords of the functools.partial object the options form
+    returns; `ctor` = the keywords the underlying constructor (replaced by a recorder) receives when the direct form
+    is used; `uses` = the options that arrive there (for the cache: the supplied mapping is the store)."""
+    import asyncio
+    import functools
+    import aiuti.asyncio as A
+    tree = ast.parse(source)
+    res = []
+    for name, ctor in DECORATORS.items():
+        fn = next((n for n in tree.body if isinstance(n, ast.FunctionDef) and n.name == name and not any(
+            isinstance(d, ast.Name) and d.id == 'overload' for d in n.decorator_list)), None)
+        if fn is None:
+            raise TranslateError(f'decorator {name} not found')
+        opts = [(a.arg, ast.unparse(d) if d is not None else '<required>')
+                for a, d in zip(fn.args.kwonlyargs, fn.args.kw_defaults)]
+        deco = getattr(A, name)
+        sent = {}
+        for k, (o, _) in enumerate(opts):
+            sent[o] = _Mapping() if o == 'cache' else 1000.0 + 7 * k
+        back = {id(v): o for o, v in sent.items()}
+
+        def names(kws):
+            out = []
+            for kw, v in kws.items():
+                src = back.get(id(v)) or next((o for o, sv in sent.items() if not isinstance(sv, dict) and sv == v), None)
+                if src is None:
+                    raise TranslateError(f'{name}: keyword {kw} carries a value that is none of the options')
+                out.append((kw, src))
+            return out
+        p = deco(**sent)
+        if not isinstance(p, functools.partial) or p.func is not deco or p.args:
+            raise TranslateError(f'{name}: the options form does not return functools.partial({name}, ...)')
+        partial_pairs = names(p.keywords)
+        ctor_pairs, uses = [], []
+        if ctor:
+            seen = {}
+
+            class Recorder:
+                def __init__(self, func, **kw):
+                    seen.update(kw)
+
+                async def __call__(self, *a, **kw):
+                    return None
+            real = getattr(A, ctor)
+            setattr(A, ctor, Recorder)
+            try:
+                async def target(x):
+                    return None
+                w = deco(target, **sent)
+                if not seen:                        # constructed lazily, inside a running loop
+                    async def main():
+                        await w(0)
+                    loop = asyncio.new_event_loop()
+                    try:
+                        loop.run_until_complete(main())
+                    finally:
+                        loop.close()
+            finally:
+                setattr(A, ctor, real)
+            ctor_pairs = names(seen)
+            uses = sorted({src for _, src in ctor_pairs})
+        else:
+            async def target(x):
+                return x
+            w = deco(target, **sent)
+            loop = asyncio.new_event_loop()
+            try:
+                loop.run_until_complete(w(1))
+            finally:
+                loop.close()
+            uses = sorted(o for o, v in sent.items() if isinstance(v, dict) and len(v))
+        res.append(dict(name=name, ctor=ctor or '', options=opts, partial=partial_pairs, ctor_pairs=ctor_pairs, uses=uses))
+    consts = {}
+    for node in ast.walk(tree):
+        if isinstance(node, ast.Call) and isinstance(node.func, ast.Attribute) and node.func.attr == 'wait_for':
+            if len(node.args) == 2:
+                v = _const(tree, node.args[1])
+                if v is not None:
+                    consts['cache_safety_timeout'] = v
+    return res, consts
+
+
+class _Mapping(dict):
+    pass
 
 
 def lean_str(s):
@@ -127,7 +240,18 @@ def regenerate():
     """Rewrite the generated file when the source says something else now. Returns (data, consts)."""
     with open(os.path.join(REPO, 'aiuti', 'asyncio.py')) as f:
         src = f.read()
-    res, consts = extract(src)
+    try:
+        res, consts = extract(src)
+        if any(d['ctor'] and not d['ctor_pairs'] for d in res):
+            raise TranslateError('the constructor call is not in the decorator body')
+    except TranslateError as first:
+        try:
+            res, consts = extract_dynamic(src)
+        except TranslateError:
+            raise
+        except Exception as e:  # noqa
+            raise TranslateError(f'{first}; reading the loaded code failed too: {type(e).__name__}: {e}')
+        NOTES.append(f'Tie B read the decorators off the loaded code (the ast reader said: {first})')
     text = render(res, consts)
     old = None
     if os.path.exists(OUT):
